@@ -22,6 +22,9 @@ impl Time {
     pub fn unix(&self) -> (r: u64) ensures r == self.deadline_secs() { unimplemented!() }
     #[verifier::external_body]
     pub fn is_expired(&self) -> (r: bool) ensures r == self.expired() { unimplemented!() }
+    /// `self.elapsed().as_secs()` (std Duration is outside Verus): seconds since creation at the clock reading of the call
+    #[verifier::external_body]
+    pub fn elapsed_secs(&self) -> (r: u64) ensures r < 0x0100_0000_0000 { unimplemented!() }
     /// Time::now(): no TTL, created at the current clock reading (assumed below 2^40 seconds, as in the Kani harnesses)
     #[verifier::external_body]
     pub fn now() -> (r: Time) ensures r.zero(), r.deadline_secs() == clock_secs(), r.deadline_secs() < 0x0100_0000_0000 { unimplemented!() }
